@@ -174,6 +174,30 @@ def jac_stock(sc):
     if not ss.PFlow.run():
         return dict(rec, skipped="pflow")
     dae = ss.dae
+    if sc.get("history"):
+        # a connection history first: the bus with the fewest branches (not a slack bus) is cut off, the power flow is run with
+        # the bus islanded, the branches are put back and the power flow is run again; the Jacobian is then examined
+        deg = {}
+        for k in range(ss.Line.n):
+            if ss.Line.u.v[k] == 1:
+                for b in (ss.Line.bus1.v[k], ss.Line.bus2.v[k]):
+                    deg.setdefault(b, []).append(ss.Line.idx.v[k])
+        slack_buses = set(ss.Slack.bus.v)
+        cand = sorted((len(v), str(b), b) for b, v in deg.items() if b not in slack_buses)
+        if not cand:
+            return dict(rec, skipped="no bus to cut")
+        cut = deg[cand[0][2]]
+        for i in cut:
+            ss.Line.alter("u", i, 0)
+        try:
+            ss.PFlow.run()
+        except Exception:
+            pass
+        for i in cut:
+            ss.Line.alter("u", i, 1)
+        if not ss.PFlow.run():
+            return dict(rec, skipped="pflow after reconnection")
+        rec["history"] = "cut bus %s (%d branches), power flow, reconnect, power flow" % (cand[0][2], len(cut))
     if sc["phase"] == "tds":
         ss.TDS.init()
         if ss.TDS.test_ok is False:
